@@ -577,7 +577,7 @@ def load_known_findings(prop):
 # finishing a run: verdict, evidence, replay files
 
 def finish(prop, tier, seed, level, stats, t0, rule, min_conclusive, assumptions, extra=None,
-           exhaustive=None, nontrivial_set="nontrivial", evaluations_key="driver_executions"):
+           exhaustive=None, nontrivial_set="nontrivial", evaluations_key="driver_executions", extra_distinct=0):
     """Print the verdict lines, write the evidence file, return the exit code."""
     open_findings, _fixed = load_known_findings(prop)
     # known findings reported by the oracle must be listed; otherwise they are violations
@@ -618,7 +618,7 @@ def finish(prop, tier, seed, level, stats, t0, rule, min_conclusive, assumptions
             print("VIOLATION property=%s replay=%s  # %s: %s" % (prop, path, sig, v["summary"][:300]))
         code = 1
     evaluations = stats.counters.get(evaluations_key, 0)
-    distinct = len(stats.sets.get(nontrivial_set, ()))
+    distinct = len(stats.sets.get(nontrivial_set, ())) + int(extra_distinct)
     conclusive = stats.counters.get("conclusive", evaluations)
     cov = {
         "evaluations": evaluations,
